@@ -51,6 +51,23 @@ def _sig_match(sig: dict, pattern: dict) -> bool:
     return True
 
 
+def overlap_kind(detail):
+    """how the two replacements of SourceFile._check's AssertionError overlap: "identical" (the same range twice),
+    "contained" (one strictly inside the other - nested call sites), "partial"; None if this is no overlap error"""
+    import re
+    if not (isinstance(detail, (list, tuple)) and len(detail) > 1 and "Replacement(" in str(detail[1])):
+        return None
+    pos = [(int(a), int(b)) for a, b in re.findall(r"lineno=(\d+), col_offset=(\d+)", str(detail[1]))]
+    if len(pos) < 4:
+        return "unknown"
+    (s1, e1, s2, e2) = pos[:4]
+    if (s1, e1) == (s2, e2):
+        return "identical"
+    if (s1 <= s2 and e2 <= e1) or (s2 <= s1 and e1 <= e2):
+        return "contained"
+    return "partial"
+
+
 class Check:
     def __init__(self, pid: str, level: str, argv=None):
         self.pid = pid
@@ -77,6 +94,8 @@ class Check:
         self.assumptions: list = []
         self.nontrivial: set = set()
         self.findings = [f for f in load_findings() if f.get("property") == pid and f.get("status") == "known"]
+        if os.environ.get("VERIF_IGNORE_KNOWN"):        # development aid: show what the known findings hide
+            self.findings = []
 
     # ---- bookkeeping
     def add_tlc(self, res, label):
@@ -159,7 +178,7 @@ class Check:
             self.cov["violation_classes"] = len(seen)
             if os.environ.get("VERIF_VERBOSE"):
                 import collections
-                cl = collections.Counter(json.dumps({k: v for k, v in x["sig"].items() if k in ("clause", "ops", "F", "exp", "got", "stmt_ops")}, sort_keys=True, default=str) for x in self.violations)
+                cl = collections.Counter(json.dumps({k: v for k, v in x["sig"].items() if k in ("clause", "ops", "F", "A", "exp", "got", "stmt_ops", "error", "overlap", "nested", "term_kind", "value_kind")}, sort_keys=True, default=str) for x in self.violations)
                 for k, n in cl.most_common(25):
                     print("  class x%d: %s" % (n, k))
         for fid, (f, n) in sorted(self.known_hits.items()):
